@@ -671,6 +671,79 @@ fn $name<const P: usize>(run: &mut Run, rng: &mut Rng) {
 lib_models_lazy_fn!(lib_models_lazy_f32, f32);
 lib_models_lazy_fn!(lib_models_lazy_f64, f64);
 
+/// Uniform models with 64-bit probabilities (PRECISION 40 .. 64) on the coders with u64 words;
+/// half of the cases with words placed around bin boundaries (at P = 64 every word is a
+/// quantile).
+fn lib_uniform_wide<const P: usize>(run: &mut Run, rng: &mut Rng) {
+    run.h(10 << 60 | (P as u64) << 8);
+    run.count("library_model_cases", 1);
+    run.count("uniform_cases_with_64_bit_probabilities", 1);
+    let range = match rng.below(4) {
+        0 => rng.usize_in(2, 10),
+        1 => rng.usize_in(2, 100_000),
+        2 => (rng.u64() >> rng.usize_in(24, 62)) as usize + 2,
+        _ => (1usize << rng.usize_in(1, 30)) + rng.usize_in(0, 2),
+    };
+    let range = range.clamp(2, 1usize << (P - 1).min(62));
+    let m = UniformModel::<u64, P>::new(range);
+    let (mut data, kind) = gen_garbage::<u64>(rng, None, 16);
+    if rng.bool() {
+        let per_bin = (crate::num::pow2(P as u32) / range as u128) as u64;
+        for x in data.iter_mut() {
+            let b = (rng.below(range as u64) as u128 * per_bin as u128) as u64;
+            let d = rng.below(600);
+            *x = if rng.chance(3, 4) { b.wrapping_sub(d) } else { b.wrapping_add(d) };
+            if P < 64 {
+                *x &= (1u64 << (P % 64)) - 1;
+            }
+        }
+        run.count("uniform_cases_with_words_near_bin_boundaries", 1);
+    }
+    for x in &data {
+        run.h(*x);
+    }
+    let desc = format!("UniformModel::<u64,{P}>::new({range}) on [{kind}] {}", words_desc(&data));
+    run.note(|| desc.clone());
+    let k = if run.small { 12 } else { 60 };
+    macro_rules! drive {
+        ($dec:expr, $errok:expr) => {{
+            let mut d = $dec;
+            for i in 0..k {
+                match d.decode_symbol(&m) {
+                    Ok(g) => {
+                        if g >= range {
+                            run.violation("symbol-outside-model", "C10/library-model-symbol-outside-support/UniformModel64", format!("{desc} :: decode #{i} returned {g}"));
+                            return;
+                        }
+                    }
+                    Err(e) => {
+                        #[allow(clippy::redundant_closure_call)]
+                        if !($errok)(&e) {
+                            run.violation("undocumented-error", "C10/undocumented-error", format!("{desc} :: decode #{i} returned {e:?}"));
+                            return;
+                        }
+                        break;
+                    }
+                }
+            }
+            run.count("library_model_symbols_decoded", k as u64);
+        }};
+    }
+    match rng.below(3) {
+        0 => drive!(AnsCoder::<u64, u128, Vec<u64>>::from_binary(data.clone()).unwrap_infallible(), |_e: &CoderError<core::convert::Infallible, core::convert::Infallible>| false),
+        1 => drive!(RangeDecoder::<u64, u128, _>::from_compressed(data.clone()).unwrap_infallible(), |e: &CoderError<RangeDecErr, core::convert::Infallible>| matches!(e, CoderError::Frontend(RangeDecErr::InvalidData))),
+        _ => {
+            let Ok(cc) = ChainCoder::<u64, u128, Vec<u64>, Vec<u64>, P>::from_binary(data.clone()) else {
+                run.count("chain_construction_refusals", 1);
+                return;
+            };
+            drive!(cc, |e: &CoderError<ChainDecErr, constriction::stream::chain::BackendError<core::convert::Infallible, core::convert::Infallible>>| matches!(e, CoderError::Frontend(ChainDecErr::OutOfCompressedData)))
+        }
+    }
+    run.nontrivial();
+    run.describe(|| desc.clone());
+}
+
 fn lib_models_default(run: &mut Run, rng: &mut Rng) {
     run.h(5 << 60);
     run.count("library_model_cases", 1);
@@ -785,6 +858,10 @@ pub fn case(run: &mut Run, rng: &mut Rng) {
                 lib_models_lazy_f32::<28>,
                 lib_models_lazy_f32::<26>,
                 lib_models_lazy_f64::<32>,
+                lib_uniform_wide::<40>,
+                lib_uniform_wide::<48>,
+                lib_uniform_wide::<63>,
+                lib_uniform_wide::<64>,
             ];
             let k = rng.below(combos.len() as u64) as usize;
             combos[k](run, rng)
